@@ -52,6 +52,9 @@ func (s *Serverless) Start(ctx context.Context, cancel context.CancelFunc,
 		}
 	}()
 	<-ctx.Done()
+	// Don't return before the handler is shut down: a mapreduce handler merges
+	// its last partial result then, and the caller reports the final result next.
+	s.handler.Shutdown()
 }
 
 func (s *Serverless) handle(ctx context.Context, cancel context.CancelFunc) error {
